@@ -123,6 +123,9 @@ type VC struct {
 	obAsserts  map[int]bool // assertions that restate an earlier obligation
 	seenRef    map[string]bool
 	seenRefs   []string
+	pure       int // >0 while evaluating a quantifier body
+	symDeclared map[string]bool
+	assertSyms  [][]string
 	constGlobalVals map[string]Val
 }
 
@@ -236,8 +239,8 @@ func (vc *VC) fresh(prefix, sort string) string {
 	return n
 }
 func (vc *VC) def(prefix, sort, term string) string {
-	if isAtom(term) {
-		return term
+	if isAtom(term) || vc.pure > 0 {
+		return term // inside a quantifier body nothing may be named (bound variables would escape)
 	}
 	n := vc.fresh(prefix, sort)
 	vc.asserts = append(vc.asserts, fmt.Sprintf("(= %s %s)", n, term))
@@ -254,12 +257,17 @@ func (vc *VC) declareFun(name, sig string) {
 	vc.decls = append(vc.decls, fmt.Sprintf("(declare-fun %s %s)", name, sig))
 }
 func (vc *VC) assume(st *State, f string) {
-	if f == "true" {
+	if f == "true" || vc.pure > 0 {
 		return
 	}
 	vc.asserts = append(vc.asserts, implies(st.guard, f))
 }
-func (vc *VC) assertGlobal(f string) { vc.asserts = append(vc.asserts, f) }
+func (vc *VC) assertGlobal(f string) {
+	if vc.pure > 0 {
+		return
+	}
+	vc.asserts = append(vc.asserts, f)
+}
 
 func (vc *VC) oblige(st *State, o *Obligation, formula string) {
 	o.guard = st.guard
@@ -473,6 +481,22 @@ func (vc *VC) inFrame(ref, lo, hi string) string {
 }
 
 func (vc *VC) tid(t types.Type) int { return vc.eng.tid(t) }
+
+// elemIdx: leaf index of element idx of a slice with offset off and element width w. For w > 1 it
+// is the term (elem_w off idx), defined by a triggered axiom, so that quantified contract clauses
+// over element indices are instantiated by E-matching on the very terms the code produces.
+func (vc *VC) elemIdx(off, idx string, w int) string {
+	if w == 1 {
+		return plusT(off, idx)
+	}
+	name := fmt.Sprintf("elem_%d", w)
+	if !vc.declared[name] {
+		vc.declared[name] = true
+		vc.decls = append(vc.decls, fmt.Sprintf("(declare-fun %s (Int Int) Int)", name))
+		vc.decls = append(vc.decls, fmt.Sprintf("(assert (forall ((o Int) (k Int)) (! (= (%s o k) (* (+ o k) %d)) :pattern ((%s o k)))))", name, w, name))
+	}
+	return fmt.Sprintf("(%s %s %s)", name, off, idx)
+}
 
 // noteRef remembers object references seen so far (ground instances of havoc axioms are
 // generated for them).
@@ -840,7 +864,9 @@ func (vc *VC) unbox(st *State, x IfaceV, t types.Type) Val {
 		vc.assertGlobal(implies(isT, fmt.Sprintf("(= (%s %s) %s)", mk, strings.Join(leaves, " "), x.box)))
 	}
 	v, _ := unflatten(t, leaves)
-	vc.asserts = append(vc.asserts, implies(and(st.guard, isT), vc.wf(st, v, t)))
+	if vc.pure == 0 {
+		vc.asserts = append(vc.asserts, implies(and(st.guard, isT), vc.wf(st, v, t)))
+	}
 	return v
 }
 
